@@ -287,11 +287,22 @@ func (ps *PairShuffle) Verify(
 		return err
 	}
 
+	// The simple k-shuffle must be the one on the vectors
+	// R = A + lambda*B and S = C + lambda*D fixed by this transcript
+	// (Neff section 4, step 6), not on vectors of the prover's choosing:
+	// otherwise D, and hence sigma in (33), is not bound to any permutation.
+	P := grp.Point() // scratch
+	Q := grp.Point() // scratch
+	for i := range k {
+		if !P.Add(p1.A[i], Q.Mul(v4.Zlambda, B[i])).Equal(ps.pv6.p0.X[i]) ||
+			!P.Add(p1.C[i], Q.Mul(v4.Zlambda, p3.D[i])).Equal(ps.pv6.p0.Y[i]) {
+			return errors.New("invalid PairShuffleProof")
+		}
+	}
+
 	// V step 7
 	Phi1 := grp.Point().Null()
 	Phi2 := grp.Point().Null()
-	P := grp.Point() // scratch
-	Q := grp.Point() // scratch
 	for i := range k {
 		Phi1 = Phi1.Add(Phi1, P.Mul(p5.Zsigma[i], Xbar[i])) // (31)
 		Phi1 = Phi1.Sub(Phi1, P.Mul(v2.Zrho[i], X[i]))
